@@ -91,6 +91,10 @@ def check_view(W, S):
             exp.append((rows[j], S.log_l[i][j]))
         W.require(S.shell_n[i] == len(rows) - s, 'C12:discard-view-shell_n',
                   'shell %d' % i)
+        if len(rows) - s == 0:
+            W.require(W.same(S.shell_n_eff[i], 0),
+                      'C12:empty-view-has-no-effective-samples',
+                      'shell %d' % i)
     W.require(len(exp) == len(ll), 'C12:discard-view-rows',
               '%d rows, expected %d' % (len(ll), len(exp)))
     if len(exp) == len(ll):
